@@ -21,19 +21,21 @@ CONSTANT Depth
 Ops == ndJsonDeserialize(IOEnv.OPS)
 NOps == Len(Ops)
 
-BaseRdMC(b, a) == W(0, IF a >= IO_START THEN 65535 ELSE 0)
+\* base 1 + k: a machine of the Known strategy with fill 0 (k = 0) or FillTab[k]
+FillOf(k) == IF k = 0 THEN 0 ELSE FillTab[k]
+BaseRdMC(b, a) == IF a >= IO_START THEN W(0, 65535) ELSE W(FillOf(b - 1), 0)
 Dev(k, slot) == [k |-> k, ie |-> FALSE, val |-> 0, time |-> 0, en |-> FALSE, lo |-> 0, hi |-> 0, vect |-> 0, prio |-> 0, slot |-> slot]
 NoFlags == [strict |-> FALSE, real |-> FALSE, dbg |-> FALSE, ignp |-> FALSE]
 \* what Simulator::new builds for flags f (Known{0} initialization), before any device is attached
-NewFor(f) ==
-  [pc |-> 12288, psr |-> 32770, reg |-> [i \in 1..8 |-> W(0, 0)], ssp |-> W(12288, 65535),
+NewFor(f, k) ==
+  [pc |-> 12288, psr |-> 32770, reg |-> [i \in 1..8 |-> W(FillOf(k), 0)], ssp |-> W(12288, 65535),
    memw |-> <<>>, dirty |-> <<>>, mcr |-> FALSE, prefetch |-> FALSE, fno |-> 0, dbgf |-> f.dbg, frames |-> <<>>,
    icount |-> 0, obs |-> <<>>, kbd |-> <<>>, disp |-> <<>>,
    devs |-> <<Dev("null", 0), Dev("kbd", 0), Dev("disp", 0), Dev("intfn", 1)>>,
    ports |-> (65024 :> 1) @@ (65026 :> 1) @@ (65028 :> 2) @@ (65030 :> 2),
    ireg |-> (65532 :> "PSR") @@ (65534 :> "MCR"),
    flags |-> f, alloca |-> <<>>,
-   srdefs |-> <<>>, base |-> 1, bps |-> {}, pause |-> "Unsuccessful", devn |-> {}, drift |-> FALSE, nrej |-> 0,
+   srdefs |-> <<>>, base |-> 1 + k, initk |-> k, bps |-> {}, pause |-> "Unsuccessful", devn |-> {}, drift |-> FALSE, nrej |-> 0,
    mark |-> [reg |-> <<>>, psr |-> 0, pc |-> 0, kbd |-> <<>>, disp |-> <<>>, memw |-> <<>>, ssp |-> NoW]]
 
 OmniCtx == [priv |-> 1, strict |-> 0, fx |-> 1, track |-> 0]
@@ -61,11 +63,12 @@ Do(s, o) ==
     [] o.op = "addbp"  -> [s EXCEPT !.bps = @ \cup {BpOf(o.bp)}]
     [] o.op = "load"   -> [LoadBlocks(s, o.blocks, 1) EXCEPT !.alloca = [i \in 1..Len(o.blocks) |-> <<o.blocks[i].s, Len(o.blocks[i].w)>>]]
     [] o.op = "srdef"  -> [s EXCEPT !.srdefs = (o.addr :> [some |-> TRUE, cc |-> TRUE, n |-> o.n, regs |-> <<>>]) @@ @]
-    [] o.op = "reset"  -> ResetOf(s, NewFor(s.flags), [j \in 1..8 |-> 40])
+    [] o.op = "setinit" -> [s EXCEPT !.initk = o.k]
+    [] o.op = "reset"  -> ResetOf(s, NewFor(s.flags, s.initk), [j \in 1..8 |-> 40])
 
 VARIABLES st, hist
 vars == <<st, hist>>
-Init == st = NewFor(NoFlags) /\ hist = <<>>
+Init == st = NewFor(NoFlags, 0) /\ hist = <<>>
 Next == /\ Len(hist) < Depth
         /\ \E k \in 1..NOps : st' = Do(Clean(st), Ops[k]) /\ hist' = Append(hist, k)
 Spec == Init /\ [][Next]_vars
@@ -73,15 +76,15 @@ Spec == Init /\ [][Next]_vars
 \* ---- C30 as a statement about the reset of every reachable machine -------------------------------
 Touched == {12288, 12289, 12290, 12291, 12293, 65024, 65026, 65030, 65088, 65104, 65532, 65534}
 ResetOK ==
-  LET t == ResetOf(Clean(st), NewFor(st.flags), [j \in 1..8 |-> 40])
-      n == NewFor(st.flags)
+  LET t == ResetOf(Clean(st), NewFor(st.flags, st.initk), [j \in 1..8 |-> 40])
+      n == NewFor(st.flags, st.initk)
   IN
   \* the execution state is that of a new machine built for the current flags
   /\ t.pc = n.pc /\ t.psr = n.psr /\ t.reg = n.reg /\ t.ssp = n.ssp /\ t.icount = 0 /\ t.fno = 0
   /\ t.frames = <<>> /\ t.obs = <<>> /\ ~t.prefetch /\ t.alloca = <<>> /\ t.srdefs = <<>> /\ t.dbgf = st.flags.dbg
   /\ \A a \in Touched \cup DOMAIN st.memw : Rd(t, a) = Rd(n, a)
   \* the configuration is kept
-  /\ t.flags = st.flags /\ t.mcr = st.mcr /\ t.ireg = st.ireg /\ t.ports = st.ports /\ t.bps = st.bps
+  /\ t.flags = st.flags /\ t.initk = st.initk /\ t.mcr = st.mcr /\ t.ireg = st.ireg /\ t.ports = st.ports /\ t.bps = st.bps
   /\ Len(t.devs) = Len(st.devs)
   /\ \A j \in 1..Len(st.devs) :
        LET d == st.devs[j]  e == t.devs[j] IN
@@ -93,8 +96,8 @@ ResetOK ==
 \* a reset machine is a fixed point of reset
 Idempotent ==
   LET dr == [j \in 1..8 |-> 40]
-      t == ResetOf(Clean(st), NewFor(st.flags), dr) IN
-  Clean(ResetOf(Clean(t), NewFor(t.flags), dr)) = Clean(t)
+      t == ResetOf(Clean(st), NewFor(st.flags, st.initk), dr) IN
+  Clean(ResetOf(Clean(t), NewFor(t.flags, t.initk), dr)) = Clean(t)
 \* non-vacuity: the histories do reach machines that differ from a new one in every part reset touches
 Emit == (Len(hist) = Depth) => PrintT(<<"HIST", hist>>)
 =============================================================================
